@@ -34,6 +34,8 @@ def gen_cases(ctx, n=None):
         if spec["n_off"] == 0 and rng.random() < 0.7:  # reference epoch that is not the first observation
             tmin = min(spec["surveys"][0]["t"])
             spec["t_ref"] = float(tmin + np.round(rng.uniform(-40, 60) * 8) / 8)
+            if rng.random() < 0.5:  # the same instant handed over in another time scale
+                spec["t_ref_scale"] = ["utc", "tt", "tai"][int(rng.integers(0, 3))]
         spec["hand"] = [float(np.round(rng.normal(0, 1) * 64) / 64) for _ in range(1 + spec["n_poly"] + spec["n_off"])]
         out.append(spec)
     return out
@@ -59,8 +61,18 @@ def observe(spec):
     sid = [int(np.argmax(trend_M[n, 1 : 1 + spec["n_off"]]) + 1) if spec["n_off"] and trend_M[n, 1 : 1 + spec["n_off"]].any() else 0 for n in range(len(all_data))]
     dt = np.asarray(all_data._t_bmjd, float) - float(all_data._t_ref_bmjd)
     rows = []
-    for kind in ("draw", "hand"):
+    for kind in ("draw", "hand", "units"):
         tab = res.copy() if kind == "hand" else res
+        if kind == "units":
+            # the same posterior row with its columns re-expressed in other (equivalent) units
+            other = u.Unit("m/s") if spec["data_unit"] == "km/s" else u.Unit("km/s")
+            tab = res[:1]
+            tab["s"] = tab["s"].to(other)
+            tab["K"] = tab["K"].to(other)
+            tab["v0"] = tab["v0"].to(other)
+            tab["P"] = tab["P"].to(u.yr)
+            tab["omega"] = tab["omega"].to(u.deg)
+            tab["M0"] = tab["M0"].to(u.deg)
         if kind == "hand":
             # a hand-built row: every linear parameter moved by an arbitrary amount (in its own unit)
             tab = res[:1]
@@ -155,7 +167,7 @@ BITS = {1: "get_orbit(i).radial_velocity(t) (+ own survey offset) is not the sam
 
 def run_cases(ctx, specs):
     terms, kept, nt = [], [], 0
-    stats = dict(t_ref_not_first=0, with_offsets=0, poly_gt1=0, jitter=0, hand_rows=0)
+    stats = dict(t_ref_not_first=0, t_ref_other_scale=0, with_offsets=0, poly_gt1=0, jitter=0, hand_rows=0, unit_rows=0)
     for spec in specs:
         try:
             out = observe(spec)
@@ -171,7 +183,9 @@ def run_cases(ctx, specs):
             terms.append(f"({kc}, {bobs_term(out, r)})")
             kept.append((spec, r["kind"]))
             stats["hand_rows"] += r["kind"] == "hand"
+            stats["unit_rows"] += r["kind"] == "units"
         stats["t_ref_not_first"] += spec.get("t_ref") is not None
+        stats["t_ref_other_scale"] += spec.get("t_ref_scale") is not None
         stats["with_offsets"] += spec["n_off"] > 0
         stats["poly_gt1"] += spec["n_poly"] > 1
         stats["jitter"] += spec["theta"]["s"] > 0
